@@ -14,9 +14,9 @@ SITES = {
     "MatrixProduct.compress": ("delegate", "_update_ms"),
     "MatrixProduct._push_cano": ("delegate", "_update_ms"),
     "MatrixProduct._update_mps": ("run", None),      # abstract run (chain_rules.update_mps_rule)
-    "Mps._evolve_tdvp_ps": ("function", None),
+    "Mps._evolve_tdvp_ps": ("run", None),            # abstract run with bookkeeping events (chain_rules.tdvp_bookkeeping_rule)
     "Mps._evolve_tdvp_mu_vmf": ("function", None),
-    "Mps._evolve_tdvp_mu_cmf": ("function", None),
+    "Mps._evolve_tdvp_mu_cmf": ("run", None),        # same
     "TTNS.decompose_to_parent": ("function", None),
     # tree convention: the bond between a node and its child is labelled on the child (child.qn = charge of the child's subtree);
     # when the node keeps u, the label that changes is the child's (qnr)
@@ -236,8 +236,9 @@ def run(chk):
     # ---- fresh labels
     from .chain_rules import single_sweep_rule
     single_sweep_rule(chk, src, rule_fresh="fresh-labels")        # the ground-state sweep driver: abstract run with versioned events
-    for rel, qual, upd, getter in ((MP, "MatrixProduct.variational_compress", "_update_mps", "_get_big_qn"),
-                                   (MPS, "Mps._evolve_tdvp_ps2", "_update_mps", "_get_big_qn")):
+    from .chain_rules import tdvp_bookkeeping_rule
+    tdvp_bookkeeping_rule(chk, src, rule_labels="label-co-update", rule_fresh="fresh-labels")     # projector-splitting and constant-mean-field schemes
+    for rel, qual, upd, getter in ((MP, "MatrixProduct.variational_compress", "_update_mps", "_get_big_qn"),):
         fi = src.func(rel, qual)
         order = Q.stmts_in_order(fi.node)
         gets = [(i, s) for i, s in enumerate(order) if isinstance(s, ast.Assign) and isinstance(s.value, ast.Call) and unparse(s.value.func).endswith(getter)]
